@@ -737,7 +737,7 @@ where
     clear_dir(dir);
     let b = boundary_ints();
     let p = Params::buckets(buckets);
-    let (db, mut m) = match open_map::<T>(dir, MAP_NAME, &p) {
+    let (mut db, mut m) = match open_map::<T>(dir, MAP_NAME, &p) {
         Out::Ok(x) => x,
         o => return Err(("map:open".into(), format!("open {}", o.failed().unwrap_or_default()))),
     };
@@ -774,6 +774,28 @@ where
             let r = guard(|| m.bulk_get(&batch));
             if r != Out::Ok(exp) {
                 return Err(("map:bulk_get".into(), format!("{}: bulk_get of [{x}, {y}, {x}, {x}, {y}] does not answer each position like get", kt.name(), x = show_int(kt, w[0]), y = show_int(kt, w[1]))));
+            }
+        }
+        if round == 1 {
+            // close and re-open under another table parameter (the stored table size decides): every integer still addresses its entry
+            let _ = guard_plain(move || {
+                drop(m);
+                drop(db);
+            });
+            let other = Params::buckets(if buckets == 64 { 1024 } else { 8 });
+            let (db2, m2) = match open_map::<T>(dir, MAP_NAME, &other) {
+                Out::Ok(x) => x,
+                o => return Err(("map:reopen".into(), format!("re-open {}", o.failed().unwrap_or_default()))),
+            };
+            db = db2;
+            m = m2;
+            for &x in &b {
+                *evals += 1;
+                let k = T::mk_ref(&x);
+                let r = guard(|| m.get(&k));
+                if r != Out::Ok(model.get(&x).cloned()) {
+                    return Err(("map:get-after-reopen".into(), format!("{}: after a re-open with {} get({}) gives {:?} instead of {:?}", kt.name(), other.ht.label(), show_int(kt, x), r, model.get(&x).map(|v| show(v)))));
+                }
             }
         }
         // iteration: keys convert back to the integers that were put
